@@ -175,6 +175,31 @@ static inline char ascii_lower(char ch) {
  "C16-b": "3way",
 })
 
+HEAD_LONG = """  // the filtered line must fit (with its terminator) in the caller's buffer
+  if (j == MAX_LINE_LEN - 1 && unfiltered_str[i] != ';' &&
+      unfiltered_str[i] != '%' && unfiltered_str[i] != '\\r' &&
+      unfiltered_str[i] != '\\n' && unfiltered_str[i] != '\\0') {"""
+HEAD_SKIP = """  while (j == MAX_LINE_LEN - 1 && unfiltered_str[i] != '\\0' &&
+         (unsigned char)unfiltered_str[i] <= '!' &&
+         unfiltered_str[i] != '\\r' && unfiltered_str[i] != '\\n')
+    i++;
+"""
+RECIPES.update({
+ "C06-e": [("src/parser.c", HEAD_LONG, """  // the filtered line must fit (with its terminator) in the caller's buffer
+  // (strchr also matches the string terminator)
+  if (j == MAX_LINE_LEN - 1 && strchr(";%\\n", unfiltered_str[i]) == NULL) {""")],
+ "C10-c": [("src/parser.c", HEAD_LONG, """  // the filtered line must fit (with its terminator) in the caller's buffer:
+  // it is too long only if the filter would have kept the next character
+  if (j == MAX_LINE_LEN - 1 && unfiltered_str[i] > '!' &&
+      unfiltered_str[i] != ';' && unfiltered_str[i] != '%') {""")],
+ "C10-h": "3way",
+ "C10-n": [("src/parser.c", HEAD_SKIP, """  while (j == MAX_LINE_LEN - 1 && unfiltered_str[i] != '\\0' &&
+         unfiltered_str[i] <= '!' &&
+         unfiltered_str[i] != '\\r' && unfiltered_str[i] != '\\n')
+    i++;
+""")],
+})
+
 def main(wt, only=None):
     head = subprocess.check_output("git -C /repo rev-parse --short HEAD", shell=True, text=True).strip()
     E.sh("git checkout -q --detach %s && git checkout -- . && git clean -fdq -e .libs" % head, cwd=wt)
